@@ -414,7 +414,10 @@ def numeric_texts(phase, tier):
 def label_texts(phase, tier):
     L = LETTERS[phase]
     m = CUSTOM_MARKERS[phase]
-    out = [L, L + " b", L + "  b\tc", "é♯", "#x", "1.0", "N", "x,y", m + "z"]
+    out = [L, L + " b", L + "  b\tc", "é♯", "#x", "1.0", "N", "x,y", m + "z",
+           # characters that str.splitlines() treats as line boundaries but that are NOT newlines of a text file
+           # (VT, FF, FS/GS/RS, NEL, LS, PS): legal inside a label, and white space for the default delimiter
+           L + "\x0b\x0cb", L + "\x1c\x1d\x1eb", L + "\x85\u2028\u2029b"]
     if tier == "thorough":
         out += [L + " b", "日本 語", "\U0001d11e", "x , y", "C:maj7/b3 # not a comment", "pattern 1"]
     return out
